@@ -53,7 +53,8 @@ func (rw *unescapeRewriter) WriteFieldBody(value string, record *base.LogRecord,
 	if record.Unescaped {
 		return copy(buffer, value)
 	}
-	record.Unescaped = true
+	// record.Unescaped is left alone: the value is unescaped into the output buffer only, the record's field keeps
+	// its escaped form for the other rewritten fields and the other outputs that serialize the same record.
 	first := unescaper.FindFirst(value)
 	if first == -1 {
 		return copy(buffer, value)
